@@ -3096,6 +3096,8 @@ class Set(Collection):
                 if not reverse.is_collection:
                     if attr.cascade_delete:
                         for item in to_remove: item._delete_(undo_funcs)
+                        # the cascade may have deleted items that were to stay in the collection
+                        new_items = {item for item in new_items if item._status_ not in del_statuses}
                     else:
                         for item in to_remove: reverse.__set__(item, None, undo_funcs)
                     for item in to_add: reverse.__set__(item, obj, undo_funcs)
